@@ -345,6 +345,10 @@ func init() {
 		xignore := regexp.MustCompile(`\)\.(SetMax|SetCapacity|SetNullValue|` + strings.Join(names, "|") + `)$`)
 		register(&Scenario{Prop: "C10", Name: "cross", MaxSteps: 300000, Body: c10CrossBody, After: c10MethodsAfter, RacePkgs: racePkgs, RaceIgnore: xignore, Rare: 10})
 	}
+	// whole-structure operations next to writers: judged for "blocks forever" only (what such an
+	// operation returns while the structure changes under it, and races entered through it, are
+	// outside the statement)
+	register(&Scenario{Prop: "C10", Name: "whole", MaxSteps: 300000, Body: c10WholeBody, After: c10MethodsAfter, RacePkgs: racePkgs, RaceIgnore: regexp.MustCompile(`.`), Rare: 4})
 	cells := c10Cells()
 	register(&Scenario{Prop: "C10", Name: "methods", MaxSteps: 300000, Body: c10MethodsBody, After: c10MethodsAfter, Cells: len(cells), RacePkgs: racePkgs, RaceIgnore: ignore})
 }
@@ -542,6 +546,81 @@ func c10CrossBody(rc *RunCtx) {
 		for k := lo; k < lo+n; k++ {
 			if invoke(o, "ContainsKey", k, 0) != "true" {
 				rc.Violate("C10", "corruption", "merge-result:"+d.Label, fmt.Sprintf("%s: after the merges instance %d lacks its own key %d", d.Label, i, k))
+			}
+		}
+	}
+}
+
+// ---- facet A3: whole-structure operations concurrent with writers ----
+
+var c10ConfigMethods = map[string]bool{"SetMax": true, "SetCapacity": true, "SetNullValue": true}
+
+func c10WholeBody(rc *RunCtx) {
+	cells := c10Cells()
+	// draw a (type, method) whose method is neither a point operation nor a configuration call
+	var c c10Cell
+	for tries := 0; ; tries++ {
+		c = cells[simrt.Choose(len(cells))]
+		if !c10PointOps[c.method] && !c10ConfigMethods[c.method] || tries > 50 {
+			break
+		}
+	}
+	t := c10Types[c.ti]
+	d := &c10Data{Type: t.Name, ti: c.ti}
+	d.Label = t.Name + "." + c.method + "(next to writers)"
+	rc.Data, rc.Label = d, d.Label
+	obj := t.New(0)
+	populate(obj, 3, 11)
+	rt := reflect.TypeOf(obj)
+	var points []string
+	for i := 0; i < rt.NumMethod(); i++ {
+		n := rt.Method(i).Name
+		if c10PointOps[n] && n != "Get" || n == "Get" && !strings.HasPrefix(t.Name, "Request") {
+			if _, ok := mkArgs(n, reflect.ValueOf(obj).MethodByName(n).Type(), 1, 1); ok {
+				points = append(points, n)
+			}
+		}
+	}
+	sort.Strings(points)
+	rc.NonTrivial = true
+	rc.Cells = append(rc.Cells, "whole:"+d.Label)
+	var tasks []*simrt.Task
+	nWhole := 1 + simrt.Choose(2)
+	for w := 0; w < nWhole; w++ {
+		reps := 1 + simrt.Choose(2)
+		tasks = append(tasks, simrt.GoNamed("whole"+strconv.Itoa(w+1), func() {
+			for i := 0; i < reps; i++ {
+				op := &c10Op{Method: c.method, Key: 2, Val: 7700 + i}
+				c10Record(d, op)
+				op.Call = simrt.Stamp()
+				op.Out = invoke(obj, c.method, 2, 7700+i)
+				op.Return = simrt.Stamp()
+			}
+		}))
+	}
+	nWriters := 1 + simrt.Choose(2)
+	for w := 0; w < nWriters; w++ {
+		n := 2 + simrt.Choose(3)
+		var ms []string
+		var ks []int
+		for i := 0; i < n; i++ {
+			ms, ks = append(ms, points[simrt.Choose(len(points))]), append(ks, 11+simrt.Choose(4))
+		}
+		base := 8000 + 100*w
+		tasks = append(tasks, simrt.GoNamed("writer"+strconv.Itoa(w+1), func() {
+			for i := range ms {
+				invoke(obj, ms[i], ks[i], base+i)
+			}
+		}))
+	}
+	simrt.Settle(int64(5 * time.Second))
+	for _, tk := range tasks {
+		if !tk.Done() {
+			_, what := tk.Blocked()
+			d.Waiting = what
+			if what != "cond" {
+				rc.Violate("C10", "blocks-forever", "blocked:"+d.Label, fmt.Sprintf("%s: task %s did not return: blocked on %s", d.Label, tk.Name, what))
+				break
 			}
 		}
 	}
